@@ -5,7 +5,7 @@ import json, os, shutil, subprocess, sys, time
 prop, m, checks = sys.argv[1], sys.argv[2], sys.argv[3].split(",")
 wt = "/tmp/wt-%s" % prop
 src = "%s/seeded/%s" % (wt, m)
-dst = "/verif/seeded/%s-%s" % (prop, m)
+dst = "/verif/seeded/%s-%s" % (prop, os.environ.get("SEED_AS", m))      # SEED_AS=m3: keep under another name
 env = dict(os.environ, GOFLAGS="-mod=mod", GOPROXY="off", GOSUMDB="off", GOTOOLCHAIN="local", VERIF_EVIDENCE_DIR="/tmp/seed-evidence")
 def sh(cmd, cwd, t=900):
     p = subprocess.run(cmd, cwd=cwd, shell=True, env=env, stdout=subprocess.PIPE, stderr=subprocess.STDOUT, text=True, timeout=t)
